@@ -133,6 +133,26 @@ func VerifH_C11_fill() {
 			if hasStart {
 				bs = verifRangeU64("brstart", 0, uint64(verifParam("MAXRANGE", 99999)))
 				pl.Segments[want].ByteRangeStart = &bs
+			} else if want > 0 && verifBool("prevrange") {
+				// RFC 8216 4.3.2.2: without an offset the sub-range begins at the next byte following the sub-range of
+				// the previous Media Segment (which is a sub-range of the same resource); the previous one may itself
+				// lack an offset (chain of two)
+				prev := pl.Segments[want-1]
+				prev.URI = uc.uri
+				pln := verifRangeU64("prevlength", 1, uint64(verifParam("MAXRANGE", 99999)))
+				prev.ByteRangeLength = &pln
+				if want > 1 && verifBool("prevchained") {
+					pp := pl.Segments[want-2]
+					pp.URI = uc.uri
+					ppl := verifRangeU64("prevprevlength", 1, uint64(verifParam("MAXRANGE", 99999)))
+					pps := verifRangeU64("prevprevstart", 0, uint64(verifParam("MAXRANGE", 99999)))
+					pp.ByteRangeLength, pp.ByteRangeStart = &ppl, &pps
+					bs = pps + ppl + pln
+				} else {
+					ps := verifRangeU64("prevstart", 0, uint64(verifParam("MAXRANGE", 99999)))
+					prev.ByteRangeStart = &ps
+					bs = ps + pln
+				}
 			}
 		}
 	}
